@@ -200,6 +200,8 @@ pub mod buffer_redux {
 }
 
 verus! {
+/// T8: the verified target is 64-bit (as the sandbox is)
+global size_of usize == 8;
 /// R10: a reachable `assert!` is an obligation
 pub fn vx_panic() requires false { }
 }
